@@ -779,8 +779,9 @@ def GENOK(s: object, ns: dict) -> bool:
         if t == "map":
             return GENOK(s["values"], ns)
         if t == "record":
-            # field names are pairwise distinct and none is the hint key "-type" (both hold for every schema the
-            # parser accepts: names are identifiers, duplicate field names are rejected)
+            # field names are pairwise distinct and none is the hint key "-type" (the Avro specification asks for
+            # both -- names are identifiers, fields are uniquely named -- but fastavro's parser enforces neither:
+            # this is a restriction of the contract's domain)
             return DISTINCT_FROM(s["fields"], 0) and NOT_AMONG(s["fields"], "-type", len(s["fields"])) \
                 and GENOK_FIELDS(s["fields"], ns, 0)
         return t == "fixed" or t == "enum"
